@@ -374,6 +374,8 @@ def g_long(flags="nc", counts=None):
         out.append(Case(dtd + "<r>" + "&m;t" * k + "</r>", flags, True, meta={"gen": "long-entity-elements", "k": k}))
         out.append(Case("<r " + " ".join("a%d='v%d'" % (i, i) for i in range(k)) + "/>", flags, True, meta={"gen": "long-attributes", "k": k}))
         out.append(Case("<r " + " ".join("xmlns:p%d='u%d'" % (i, i) for i in range(k)) + "><p%d:x/></r>" % (k - 1), flags, True, meta={"gen": "long-ns-decls", "k": k}))
+        # a child that declares one namespace of its own under a parent with k namespaces in scope: the inherited ones keep their order
+        out.append(Case("<r " + " ".join("xmlns:p%d='u%d'" % (i, i) for i in range(k)) + "><c xmlns:q='v' xmlns:p1='w'><p0:x/></c></r>", flags, True, meta={"gen": "long-ns-inherit", "k": k}))
         # many attributes, two of which share a local name in different namespaces (source order must be kept)
         attrs = ["zz%d='v%d'" % (k - i, i) for i in range(k)]
         attrs.insert(k // 2, "p:zz1='w'")
